@@ -220,6 +220,21 @@ func okClass(o fsx.Out) string {
 	return "fail"
 }
 
+// modelVolume is the reference for the names used below: a drive letter (ASCII letter and
+// colon) in front, or a \\host\share prefix; nothing else is a volume.
+func modelVolume(name string) string {
+	if len(name) >= 2 && name[1] == ':' && (name[0] >= 'a' && name[0] <= 'z' || name[0] >= 'A' && name[0] <= 'Z') {
+		return name[:2]
+	}
+	if strings.HasPrefix(name, `\\`) {
+		parts := strings.Split(name[2:], `\`)
+		if len(parts) >= 2 && parts[0] != "" && parts[1] != "" && parts[0] != "." && parts[1] != "." {
+			return `\\` + parts[0] + `\` + parts[1]
+		}
+	}
+	return ""
+}
+
 // volume management against a set model (MemFS; OrefaFS has no volume manager)
 func runVolumes(c *vt.Ctx, steps []string) *vt.Deviation {
 	win := memfs.NewWithOptions(&memfs.Options{OSType: avfs.OsWindows})
@@ -237,7 +252,10 @@ func runVolumes(c *vt.Ctx, steps []string) *vt.Deviation {
 		if len(parts) > 1 {
 			name = parts[1]
 		}
-		vol := avfs.VolumeName(win, name)
+		vol := modelVolume(name)
+		if got := avfs.VolumeName(win, name); got != vol {
+			return mk(st, fmt.Sprintf("VolumeName(%q) = %q, want %q", name, got, vol))
+		}
 		switch parts[0] {
 		case "add":
 			err := win.VolumeAdd(name)
@@ -311,7 +329,7 @@ func runVolumes(c *vt.Ctx, steps []string) *vt.Deviation {
 		}
 		// a volume that does not exist cannot be reached by any path: Windows "path not found",
 		// and nothing appears on another volume
-		for _, v := range []string{"C:", "D:", "E:", "F:"} {
+		for _, v := range []string{"C:", "D:", "E:", "F:", "Z:", "A:"} {
 			if model[v] {
 				continue
 			}
@@ -434,9 +452,33 @@ func TestCheck(t *testing.T) {
 	}
 	// volumes
 	names := []string{"C:", "D:", "d:", `D:\x`, "x", "", "E:", `\\host\share`}
-	var steps []string
+	// the ends of the two letter ranges and the characters just outside them
+	edge := []string{"Z:", "z:", "A:", "a:", `Z:\x`, "@:", "[:", "`:", "{:", "1:"}
+	var steps, all []string
 	for _, n := range names {
 		steps = append(steps, "add:"+n, "del:"+n)
+	}
+	for _, n := range append(append([]string{}, names...), edge...) {
+		all = append(all, "add:"+n, "del:"+n)
+	}
+	if c.Thorough() {
+		steps = all
+	} else {
+		// quick: all pairs over the larger set, all triples over the smaller one
+		pi := 0
+		for _, a := range all {
+			for _, b := range all {
+				pi++
+				if pi%c.NShards != c.Shard {
+					continue
+				}
+				seq := []string{a, b}
+				if dev := runVolumes(c, seq); dev != nil {
+					c.Report(dev, Case{Kind: "volumes", Vol: seq})
+				}
+				c.NonTrivial(vt.Hash64(seq...))
+			}
+		}
 	}
 	idx := 0
 	for _, a := range steps {
@@ -454,6 +496,6 @@ func TestCheck(t *testing.T) {
 			}
 		}
 	}
-	c.Extra("volumes", fmt.Sprintf("all %d^3 sequences of VolumeAdd/VolumeDelete over %d names against a set model", len(steps), len(names)))
+	c.Extra("volumes", fmt.Sprintf("all %d^3 sequences of VolumeAdd/VolumeDelete (and, in the quick tier, all %d^2 over the names extended by the edges of the drive-letter ranges) against a set model", len(steps), len(all)))
 	c.SetExhaustive(true)
 }
